@@ -312,17 +312,26 @@ func watchCase(prop, unit string, caseJSON []byte) (stop func()) {
 			return
 		case <-time.After(time.Duration(limit) * time.Second):
 		}
-		first := busyGoroutines()
-		select {
-		case <-done:
-			return
-		case <-time.After(5 * time.Second):
+		// Three looks, five seconds apart: the same goroutine must be
+		// running or runnable at the same client source line each time (a
+		// goroutine that is merely busy moves on).
+		var looks [3]map[string]busyG
+		for k := range looks {
+			if k > 0 {
+				select {
+				case <-done:
+					return
+				case <-time.After(5 * time.Second):
+				}
+			}
+			looks[k] = busyGoroutines()
 		}
-		second := busyGoroutines()
 		code, stack := 98, ""
-		for id, st := range second {
-			if _, ok := first[id]; ok {
-				code, stack = 97, st
+		for id, g := range looks[2] {
+			a, ok1 := looks[0][id]
+			b, ok2 := looks[1][id]
+			if ok1 && ok2 && a.at == g.at && b.at == g.at {
+				code, stack = 97, g.stack
 				break
 			}
 		}
@@ -344,7 +353,12 @@ func watchCase(prop, unit string, caseJSON []byte) (stop func()) {
 
 // busyGoroutines returns, by goroutine id, the stacks of the goroutines that
 // are running or runnable with client code as innermost non-runtime frame.
-func busyGoroutines() map[string]string {
+type busyG struct {
+	at    string // innermost client frame: function and file:line
+	stack string
+}
+
+func busyGoroutines() map[string]busyG {
 	buf := make([]byte, 1<<20)
 	for {
 		n := runtime.Stack(buf, true)
@@ -354,7 +368,7 @@ func busyGoroutines() map[string]string {
 		}
 		buf = make([]byte, 2*len(buf))
 	}
-	out := map[string]string{}
+	out := map[string]busyG{}
 	for _, blk := range strings.Split(string(buf), "\n\n") {
 		lines := strings.Split(blk, "\n")
 		if len(lines) < 2 || !strings.HasPrefix(lines[0], "goroutine ") {
@@ -364,7 +378,7 @@ func busyGoroutines() map[string]string {
 		if !strings.Contains(head, "[running") && !strings.Contains(head, "[runnable") {
 			continue
 		}
-		for _, l := range lines[1:] {
+		for li, l := range lines[1:] {
 			if strings.HasPrefix(l, "\t") || strings.HasPrefix(l, "created by") {
 				continue
 			}
@@ -373,7 +387,18 @@ func busyGoroutines() map[string]string {
 			}
 			if strings.HasPrefix(l, "github.com/lightninglabs/neutrino") {
 				id := strings.Fields(head)[1]
-				out[id] = blk
+				fn := l
+				if i := strings.IndexByte(fn, '('); i > 0 {
+					fn = fn[:i]
+				}
+				where := ""
+				if li+2 < len(lines) {
+					where = strings.TrimSpace(lines[li+2])
+					if i := strings.IndexByte(where, ' '); i > 0 {
+						where = where[:i]
+					}
+				}
+				out[id] = busyG{at: fn + " " + where, stack: blk}
 			}
 			break
 		}
